@@ -274,11 +274,15 @@ func runChunks(c *engine.Ctx) engine.Result {
 	r := c.R
 	prefixes := []string{nodeenrollment.FetchNodeCredsNextProtoV1Prefix, nodeenrollment.AuthenticateNodeNextProtoV1Prefix}
 	res := engine.Result{
-		Rule: "case = (prefix, payload length, content class b64|bytes|digits, foreign entries y/n, malformed kind); lengths enumerated as stated in 'lengths'; non-trivial = Break succeeded and Combine's result was compared with the payload; distinct by case descriptor",
+		Rule: "case = (prefix, payload length, content class b64|bytes|digits, foreign entries y/n, malformed kind); lengths enumerated as stated in 'lengths'; non-trivial = Break succeeded and Combine's result was compared with the payload; distinct by case descriptor. Second part: (request kind, number of chunks, place of the certificate-preference entry, place and kind of unrelated names) sent to a real intercepting listener; the request handed to the listener's fetch / generate function is compared with the one that was split",
 		Assumptions: []string{
 			fmt.Sprintf("'fits a ClientHello' is taken as sum(1+len(entry)) <= %d, validated by a real crypto/tls handshake carrying the largest payload per prefix", alpnBudget),
 			"content is random per length, not exhaustive",
 		},
+	}
+	if c.Replay != nil && strings.Contains(string(c.Replay), `"layout"`) {
+		runChunksThroughListener(c) // the layouts are few; the replay re-runs all of them
+		return res
 	}
 	if c.Replay != nil {
 		var cc chunkCase
@@ -367,6 +371,10 @@ func runChunks(c *engine.Ctx) engine.Result {
 			r.Inconclusive(fmt.Sprintf("real ClientHello did not carry the %d entries of the largest payload (err=%v)", len(entries), herr))
 		}
 	}
+	// the recombination as the listener performs it
+	runChunksThroughListener(c)
+	r.Require("listener_recombined_equal:auth", 100)
+	r.Require("listener_recombined_equal:fetch", 100)
 	r.Require("max_payload_carried_by_real_clienthello", int64(len(prefixes)))
 	r.Require("roundtrips_equal", 1)
 	res.Exhaustive = !c.Quick()
